@@ -193,6 +193,20 @@ func handleCorrupt(raw []byte) interface{} {
 	}
 	ps := cfg.PageSize
 	base, ops := env.Disk.Log()
+	// Pages written after the newest header was written (by a transaction that was aborted later, possibly followed
+	// by commits that had nothing to write) may have recycled pages of the state the older header describes: the
+	// weaker oracle applies to the fallback (see CorruptTask.Weak).
+	lastHdr := -1
+	for i, op := range ops {
+		if op.Kind == simdisk.OpWrite && op.Off/int64(ps) < 2 && len(op.Data) == pagedrv.HeaderSize {
+			lastHdr = i
+		}
+	}
+	for _, op := range ops[lastHdr+1:] {
+		if op.Kind == simdisk.OpWrite && op.Off/int64(ps) >= 2 {
+			t.Weak = true
+		}
+	}
 	hdr := [2][]byte{append([]byte(nil), img[0:pagedrv.HeaderSize]...), append([]byte(nil), img[ps:ps+pagedrv.HeaderSize]...)}
 	txid := [2]uint64{binary.LittleEndian.Uint64(hdr[0][pagedrv.OffTxid:]), binary.LittleEndian.Uint64(hdr[1][pagedrv.OffTxid:])}
 	active := 0
@@ -395,7 +409,7 @@ func checkDamaged(cfg0, cfg pagedrv.Cfg, img []byte, expect *pagedrv.State, expe
 			return
 		}
 		if err != nil {
-			env.Viol = append(env.Viol, pagedrv.Violation{Class: "open-error", Msg: fmt.Sprintf("Open failed although one header is intact: %v", err)})
+			env.Viol = append(env.Viol, pagedrv.Violation{Class: "open-error", Msg: fmt.Sprintf("Open failed although one header is intact: %s", pagedrv.ErrChain(err))})
 			outcome = "open-error"
 			return
 		}
